@@ -101,7 +101,8 @@ def check(ctx):
     good, hit = unreachable_without(sb, [c.bb for c in regs], removed_edges=empty_edges + changed_edges)
     ctx.require(R1, sync_eval or (bool(empty_edges) and bool(changed_edges) and good), regs[0].where() if regs else "-",
                 "in synchronize, registration is reached only when account_url is empty or the external binding changed", [SYNC, "register-condition"])
-    for key in (UPC, UPK):
+    aut = account_update_table(prog)          # when evaluated, R4's `answer-evaluated` rows decide (bookkeeping_rule)
+    for key in ([] if aut is not None else [UPC, UPK]):
         b = prog.async_body(key)
         rs = b.calls_to(REG)
         ctx.floor(R1, "re-registration site in %s" % key.rsplit("::", 1)[1], len(rs), 1)
@@ -197,8 +198,28 @@ def bookkeeping_rule(ctx, R4, keys):
     prog = ctx.prog
     table = {REG: ["set_account_url", "set_orders_url", "update_key_hash", "update_contacts_hash", "update_external_account_hash"],
              UPC: ["update_contacts_hash"], UPK: ["update_key_hash"]}
+    evaluated_updates = account_update_table(prog) is not None
     for key, needs in table.items():
         if key not in keys:
+            continue
+        if evaluated_updates and key in (UPC, UPK):
+            # decided by value: what each answer of the CA leaves recorded and saved
+            for (key2, answer), (kind, res, ev) in sorted(account_update_table(prog).items()):
+                if key2 != key:
+                    continue
+                b_ = prog.async_body(key)
+                nm_ = key.rsplit("::", 1)[1]
+                upd_ = "update_contacts_hash" if key == UPC else "update_key_hash"
+                if answer == "ok":
+                    good_ = res == "Ok" and upd_ in ev and "save" in ev and ev.index(upd_) < len(ev) - 1 - ev[::-1].index("save") and "register_account" not in ev
+                    txt_ = "accepted: %s then save, success" % upd_
+                elif answer.endswith("accountDoesNotExist"):
+                    good_ = "register_account" in ev and upd_ not in ev
+                    txt_ = "the CA reports the account unknown: it is registered again (and only then)"
+                else:
+                    good_ = res == "Err" and not ev
+                    txt_ = "refused / failed: an error, nothing recorded, no registration"
+                ctx.require(R4, good_, "%s:%s" % (b_.file, b_.line), "%s, answer %s -> %s %s (expected: %s)" % (nm_, answer.rsplit(":", 1)[-1], res, ev, txt_), [key, "answer-evaluated", answer.rsplit(":", 1)[-1]])
             continue
 
         b = prog.async_body(key)
@@ -612,3 +633,60 @@ def key_edit_table(prog):
         fresh = cur.v[accf.index("current_key")].deref() is not acc.v[accf.index("current_key")] and (bool(past) or ck != (k1, a1))
         rows.append(((k1, a1, k2, a2), ("new" if fresh else "same", ck[0], ck[1], past, saved[0] > 0)))
     return rows
+
+
+_AUT = {}
+
+
+def account_update_table(prog):
+    """update_account_contacts / update_account_key EVALUATED for four answers of the CA: {(function, answer): (run kind, Ok|Err, [events])}
+    with events drawn from update_*_hash / save / register_account, in order; None when not evaluable"""
+    if id(prog) in _AUT:
+        return _AUT[id(prog)]
+    from ..absint import NONE_V, Interp, Val, _FRAME_SEQ, async_state, marker, ok, some, struct_val, success_model, vstr
+    HE, HAE = "acmed::http::HttpError", "acmed::acme_proto::structs::error::HttpApiError"
+    out = {}
+    try:
+        tf = [f for f in prog.adt_fields(HAE) if f in ("error_type", "type", "type_")] or [f for f in prog.adt_fields(HAE) if "type" in f]
+        for key in (UPC, UPK):
+            b = prog.async_body(key)
+            for answer in ("ok", "urn:ietf:params:acme:error:accountDoesNotExist", "urn:ietf:params:acme:error:badPublicKey", "urn:ietf:params:acme:error:unauthorized", "generic"):
+                def model(cs, args, answer=answer):
+                    if cs.fn == POLL and cs.res and cs.res.startswith("acmed::acme_proto::http::post_jose"):
+                        if answer == "ok":
+                            inner = ok(Val("unit"))
+                        elif answer == "generic":
+                            inner = Val("adt", [Val("adt", [marker("ERR")], (HE, "GenericError"))], ("core::result::Result", "Err"))
+                        else:
+                            doc = struct_val(prog, HAE, {tf[0]: some(vstr(answer)), "status": NONE_V, "detail": NONE_V})
+                            inner = Val("adt", [Val("adt", [doc], (HE, "ApiError"))], ("core::result::Result", "Err"))
+                        return Val("adt", [inner], ("core::task::poll::Poll", "Ready"))
+                    return None
+                it = Interp(b, success_model(b, model), 300000)
+                it.follow = lambda cs: (cs.name or "").startswith(("acmed::http::HttpError", "<acmed::http::HttpError", "acmed::acme_proto::structs::error::", "<acmed::acme_proto::structs::error::")) or \
+                    ((cs.name or "").startswith("acmed::acme_proto::account::") and not (cs.name or "").startswith((REG, UPC, UPK)))
+                acc = struct_val(prog, ACC, {})
+                st = async_state(prog, key, lambda name, ty, i: Val("ref", acc, ("place", 9000, _FRAME_SEQ[0] + 1)) if ty.endswith("account::Account") else None)
+                r = it.run({9000: acc, 1: st})
+                if r.kind != "return" or r.ret is None:
+                    _AUT[id(prog)] = None
+                    return None
+                rv = r.ret.deref()
+                res = rv.extra[1] if rv.k == "adt" and rv.extra else None
+                ev = []
+                for c, a, rr in r.calls:
+                    n = c.name or ""
+                    if "{closure" in n:
+                        continue
+                    for tag in ("update_key_hash", "update_contacts_hash", "update_external_account_hash"):
+                        if n.endswith("Account::" + tag):
+                            ev.append(tag)
+                    if n.endswith("Account::save"):
+                        ev.append("save")
+                    if n == REG:
+                        ev.append("register_account")
+                out[(key, answer)] = (r.kind, res, ev)
+    except Exception:
+        out = None
+    _AUT[id(prog)] = out
+    return out
